@@ -53,6 +53,7 @@ func c14Keys() []string {
 		long(p36, 300, 'c'),                    // shares its first fragment with two other keys
 		string(all),                            // every byte value
 		"",                                     // the empty key
+		"a\xffz",                               // the byte after the prefix "a" is 0xFF
 	}
 }
 
@@ -562,6 +563,31 @@ func customC14(t *testing.T, e *mc.Explorer) *mc.ShardResult {
 		}
 	}
 	res.Extra["length_sweep_histories"] = swept
+	// ---- value sizes around the powers of two a chunked writer or a cipher might use (with and without the 28 bytes of
+	// nonce + tag): Set, Get, overwrite with a shorter value, Get, on the plain and the encrypted file-system backend
+	// and the memory backend
+	sizes := 0
+	for si, n := range []int{4095, 4096, 4097, 65536 - 28, 65535, 65536, 65537, 131072 - 28, 131072, 1<<20 - 28, 1 << 20, 1<<20 + 1} {
+		if si%e.Shards != e.Shard {
+			continue
+		}
+		for _, b := range []string{"fscache", "fscache-enc", "memcache"} {
+			sizes++
+			res.Executions++
+			res.Transitions += 4
+			if m := c14Sizes(b, n); m != "" {
+				sig := fmt.Sprintf("value size: %s: %s", map[bool]string{true: "fscache*", false: b}[strings.HasPrefix(b, "fscache")], strings.SplitN(m, ":", 2)[0])
+				if v, ok := viol[sig]; ok {
+					v.Count++
+				} else {
+					detail, _ := json.Marshal(map[string]any{"size": map[string]any{"backend": b, "n": n}})
+					viol[sig] = &mc.Violation{Property: "C14", Signature: sig, Count: 1, Shard: e.Shard, Choices: []int{},
+						Message: fmt.Sprintf("backend %s, value of %d bytes: %s", b, n, m), Trace: []mc.Pt{{Label: "replay", Desc: string(detail)}}}
+				}
+			}
+		}
+	}
+	res.Extra["value_size_round_trips"] = sizes
 	// ---- residue of a killed writer: a Set that dies (real SIGKILL of a child process) at each of its file-system
 	// operations leaves the directory in some intermediate shape; a backend opened on it afterwards must still be a
 	// map: the key holds its old or its new value, everything else — listing included — is as before.
@@ -682,11 +708,43 @@ func c14Residue(backend, key string, at int) string {
 	return c14Compare(in, model, keys)
 }
 
+// c14Sizes: a value of n pseudo-random bytes, then a shorter one, read back exactly.
+func c14Sizes(backend string, n int) string {
+	in, err := c14Open(backend)
+	if err != nil {
+		return "open failed: " + err.Error()
+	}
+	defer in.close()
+	val := make([]byte, n)
+	for i := range val {
+		val[i] = byte(i*131 + i>>8)
+	}
+	for _, k := range []string{"k", c15LongKey} {
+		for _, v := range [][]byte{val, val[:n/2+1], val} {
+			if err := in.conn.Set(k, append([]byte(nil), v...)); err != nil {
+				return fmt.Sprintf("Set failed: %d bytes: %v", len(v), err)
+			}
+			got, err := in.conn.Get(k)
+			if err != nil {
+				return fmt.Sprintf("Get failed after Set: %d bytes: %v", len(v), err)
+			}
+			if !bytes.Equal(got, v) {
+				return fmt.Sprintf("Get returns other bytes than Set stored: %d bytes stored, %d returned, first difference at %d", len(v), len(got), firstDiff(got, v))
+			}
+		}
+	}
+	return ""
+}
+
 func replayC14(t *testing.T, v *mc.Violation) bool {
 	var d struct {
 		Scenario c14Scenario `json:"scenario"`
 		Path     []c14Op     `json:"path"`
-		Residue  *struct {
+		Size     *struct {
+			Backend string `json:"backend"`
+			N       int    `json:"n"`
+		} `json:"size"`
+		Residue *struct {
 			Backend string `json:"backend"`
 			Key     string `json:"key"`
 			At      int    `json:"at"`
@@ -696,6 +754,11 @@ func replayC14(t *testing.T, v *mc.Violation) bool {
 		if p.Label == "replay" {
 			_ = json.Unmarshal([]byte(p.Desc), &d)
 		}
+	}
+	if d.Size != nil {
+		m := c14Sizes(d.Size.Backend, d.Size.N)
+		fmt.Printf("  | backend %s value of %d bytes -> %s\n", d.Size.Backend, d.Size.N, m)
+		return m != ""
 	}
 	if d.Residue != nil {
 		m := c14Residue(d.Residue.Backend, d.Residue.Key, d.Residue.At)
